@@ -510,6 +510,21 @@ func c12Declarations(rng *rand.Rand, systematic bool, n int) []*c12Decl {
 		presence("enum/in-unspecified", func() *jT {
 			return tRef(kEnum, "Color", "c.v1.Color").with(func(t *jT) { t.Rules = &jRules{In: []string{"UNSPECIFIED", "RED"}} })
 		}, enumOpts...)
+		presence("enum/not-in-unspecified", func() *jT {
+			return tRef(kEnum, "Color", "c.v1.Color").with(func(t *jT) { t.Rules = &jRules{NotIn: []string{"UNSPECIFIED", "BLUE"}} })
+		}, enumOpts...)
+		// an enum that spells its zero option out: same numbering, same rule semantics
+		shadeOpts := []string{"DARK", "MID", "LIGHT"}
+		presence("enum-explicit-zero/none", func() *jT { return tRef(kEnum, "Shade", "c.v1.Shade") }, shadeOpts...)
+		presence("enum-explicit-zero/in", func() *jT {
+			return tRef(kEnum, "Shade", "c.v1.Shade").with(func(t *jT) { t.Rules = &jRules{In: []string{"DARK", "LIGHT"}} })
+		}, shadeOpts...)
+		presence("enum-explicit-zero/not-in", func() *jT {
+			return tRef(kEnum, "Shade", "c.v1.Shade").with(func(t *jT) { t.Rules = &jRules{NotIn: []string{"MID"}} })
+		}, shadeOpts...)
+		presence("enum-explicit-zero/not-in-unspecified", func() *jT {
+			return tRef(kEnum, "Shade", "c.v1.Shade").with(func(t *jT) { t.Rules = &jRules{NotIn: []string{"UNSPECIFIED"}} })
+		}, shadeOpts...)
 		arr := func(id string, item func() *jT, rules *jRules) {
 			add("array-"+id+"/plain", &jF{T: tArr(item()).with(func(t *jT) { t.Rules = rules })})
 			add("array-"+id+"/required", &jF{T: tArr(item()).with(func(t *jT) { t.Rules = rules }), Req: true})
@@ -599,13 +614,26 @@ func c12Declarations(rng *rand.Rand, systematic bool, n int) []*c12Decl {
 			add(id+"/bool", f)
 		case 5:
 			opts := []string{"RED", "GREEN", "BLUE"}
+			enumName := "Color"
+			if rng.Intn(2) == 0 {
+				opts, enumName = []string{"DARK", "MID", "LIGHT"}, "Shade"
+			}
+			pick := func() string {
+				if rng.Intn(5) == 0 {
+					return "UNSPECIFIED"
+				}
+				return opts[rng.Intn(3)]
+			}
 			r := &jRules{}
 			if rng.Intn(2) == 0 {
-				r.In = []string{opts[rng.Intn(3)], opts[rng.Intn(3)]}
+				r.In = []string{pick(), pick()}
 			} else if rng.Intn(2) == 0 {
-				r.NotIn = []string{opts[rng.Intn(3)]}
+				r.NotIn = []string{pick()}
+				if rng.Intn(2) == 0 {
+					r.NotIn = append(r.NotIn, pick())
+				}
 			}
-			f.T = tRef(kEnum, "Color", "c.v1.Color").with(func(t *jT) { t.Rules = r })
+			f.T = tRef(kEnum, enumName, "c.v1."+enumName).with(func(t *jT) { t.Rules = r })
 			add(id+"/enum", f, opts...)
 		default:
 			f.Opt = false
@@ -691,7 +719,7 @@ func c12RuleText(f *jF) string {
 // c12Batch compiles the declarations as objects of one package and judges every candidate.
 func c12Batch(c *rt.C, decls []*c12Decl, class string) {
 	file := &jFile{Path: "c/v1/rules.j5s", Pkg: "c.v1"}
-	file.Elems = append(file.Elems, enumDecl("Color", "RED", "GREEN", "BLUE"))
+	file.Elems = append(file.Elems, enumDecl("Color", "RED", "GREEN", "BLUE"), enumDecl("Shade", "UNSPECIFIED", "DARK", "MID", "LIGHT"))
 	for i, d := range decls {
 		file.Elems = append(file.Elems, objDecl(fmt.Sprintf("Holder%c%c", 'A'+i/26, 'a'+i%26), d.field))
 	}
